@@ -296,6 +296,16 @@ class Interp:
             return Sym(('fn', o['fn']))
         if o.get('promoted') and len(o.get('promoted_consts') or []) == 1:
             return ('refval', self.const(o['promoted_consts'][0]), ())
+        nm = o.get('name')
+        if nm and nm in getattr(self.prog, 'consts', {}):
+            # a named constant of the crate that rustc left unevaluated here: the value of its initialiser, when that is a literal
+            ct = self.prog.const_term(nm)
+            if isinstance(ct, tuple) and ct[0] == 'const' and ct[1] == 'str':
+                return ct[2]
+            if isinstance(ct, tuple) and ct[0] == 'const' and isinstance(ct[2], float):
+                return Iv(ct[2], ct[2]) if ct[2] == ct[2] else Iv(0.0, 0.0, True)
+            if isinstance(ct, tuple) and ct[0] == 'const' and isinstance(ct[2], int):
+                return ct[2]
         raise Unsupported('const ' + str(o)[:120])
 
     def get_path(self, v, proj, st):
@@ -431,6 +441,8 @@ class Interp:
             if isinstance(r, tuple) and r and r[0] in ('ref', 'mref', 'refval'):
                 return (r[0], r[1], tuple(r[2]) + rest)
             if isinstance(r, Sym):
+                if not rest:
+                    return r              # `&*r` of an opaque reference is that reference
                 return Sym(('ref', r.tag, tuple(e.get('name', e['k']) for e in rest)))
             if (isinstance(r, str) or (isinstance(r, tuple) and r and r[0] == 'bytes')) and not rest:
                 return r                  # a &str / &[u8] constant is modelled by the text itself
